@@ -112,6 +112,14 @@ type Scenario struct {
 	Fit           FitnessProg `json:"fitness"`
 	Seed          int64       `json:"seed"`
 	ExcludedKnown string      `json:"excluded_known_finding,omitempty"` // the generator steered around a recorded finding (counted)
+	// Switch: from epoch At on, the turnovers receive another options object (same population size and executor, other
+	// thresholds / rates), as a caller that adapts its settings during a run passes them; the executor object stays the same
+	Switch *OptSwitch `json:"switch,omitempty"`
+}
+
+type OptSwitch struct {
+	At   int     `json:"at"`
+	Opts OptSpec `json:"opts"`
 }
 
 type ScenarioCfg struct {
@@ -124,6 +132,7 @@ type ScenarioCfg struct {
 	MinPop       int
 	MaxHidden    int
 	HugeFitness  bool // also draw fitness scales close to the largest finite float64 (sums overflow to +Inf)
+	NoSwitch     bool // never change the options object during the history
 }
 
 func genScenario(cfg ScenarioCfg) *rapid.Generator[Scenario] {
@@ -164,6 +173,17 @@ func genScenario(cfg ScenarioCfg) *rapid.Generator[Scenario] {
 		if sc.Ctor == "reread" {
 			sc.PreEpochs = rapid.IntRange(1, 8).Draw(t, "pre epochs")
 		}
+		if !cfg.NoSwitch && sc.Epochs >= 2 && rapid.IntRange(0, 3).Draw(t, "switch options") == 0 {
+			o2 := drawOpts(t, OptsCfg{MinPop: cfg.MinPop, MaxPop: cfg.MaxPop, Structural: cfg.Structural})
+			o2.PopSize, o2.Parallel = sc.Opts.PopSize, sc.Opts.Parallel
+			if o2.BabiesStolen > o2.PopSize/2 {
+				o2.BabiesStolen = o2.PopSize / 2
+			}
+			if sc.Fit.Scale >= 1e300 {
+				o2.AgeSignificance = 1 // see the known finding on near-maximal fitness
+			}
+			sc.Switch = &OptSwitch{At: rapid.IntRange(1, sc.Epochs-1).Draw(t, "switch at"), Opts: o2}
+		}
 		if sc.Ctor == "random" {
 			sc.RandIn = rapid.IntRange(2, 4).Draw(t, "rand in")
 			sc.RandOut = rapid.IntRange(1, 3).Draw(t, "rand out")
@@ -181,6 +201,8 @@ type epochHooks struct {
 	turnoverMustSucceed bool
 
 	built  func(pop *genetics.Population, opts *neat.Options) error
+	// switched is told when the history continues under another options object (before the 'before' hook of that epoch)
+	switched func(opts *neat.Options)
 	before func(epoch int, pop *genetics.Population) error
 	after  func(epoch int, pop *genetics.Population) error
 }
@@ -279,6 +301,14 @@ func runScenario(sc Scenario, h epochHooks, rec *Rec) error {
 	ctx := opts.NeatContext()
 	exec := newExecutor(opts)
 	for e := 0; e < sc.Epochs; e++ {
+		if sc.Switch != nil && e == sc.Switch.At {
+			opts = buildOptions(sc.Switch.Opts)
+			ctx = opts.NeatContext()
+			rec.Class("options object replaced during the history")
+			if h.switched != nil {
+				h.switched(opts)
+			}
+		}
 		n := len(pop.Organisms)
 		for i, o := range pop.Organisms {
 			o.Fitness = fitnessOf(sc.Fit, e, i, n, o.Genotype)
